@@ -2,6 +2,7 @@ import BFL.Model.UT
 import BFL.Bridge.Mat
 import BFL.Proofs.UT
 import BFL.Proofs.UTCirc
+import BFL.Proofs.UTEuler
 import Mathlib.Analysis.Matrix.Order
 import Mathlib.Analysis.SpecialFunctions.Sqrt
 /-
@@ -430,6 +431,73 @@ theorem ut_layout_linear_points (L Z : ℕ) (mean : Vec ℝ (Layout.dim ⟨L, 0,
     dsimp only [Mat.of]
     simp [h, hj']
     rfl
+
+/-- **Linear + Euler-angle layouts, assembled**: for the layout-general model of `sigma_point()` and of
+    the moment computation of `unscented_transform()` (`sigmaPointsLayout`, `utLayoutComponent`), on a
+    layout with `lin` linear rows and `circ` Euler angles, the sigma points reproduce under the unscented
+    weights the mean they were drawn from (linear rows exactly, angles modulo 2π) and the covariance —
+    for every factor `B` with `B Bᵀ = c P` whose circular rows stay within half a turn
+    (`|B r l| < π`) and have a positive weighted resultant. -/
+theorem ut_euler_reproduces (ly : Layout) (hq : ly.quat = false) (hz : ly.noise = 0) (hn : 1 ≤ ly.dof)
+    (alpha beta kappa : ℝ) (hc : (ly.dof : ℝ) + utLambda ly.dof alpha kappa ≠ 0)
+    (m : Vec ℝ ly.dim) (B P : Mat ℝ ly.dof ly.dof)
+    (hB : toM B * (toM B)ᵀ = (utWeights ly.dof alpha beta kappa).c • toM P)
+    (hsmall : ∀ (r' l : Fin ly.dof), ly.lin ≤ r'.val → -π < B r' l ∧ B r' l < π)
+    (hR : ∀ r' : Fin ly.dof, ly.lin ≤ r'.val →
+      0 < utLambda ly.dof alpha kappa / ((ly.dof : ℝ) + utLambda ly.dof alpha kappa)
+          + 2 * (1 / (2 * ((ly.dof : ℝ) + utLambda ly.dof alpha kappa))) * ∑ l, Real.cos (B r' l))
+    (qmean : ℕ → Quat ℝ) :
+    let X := sigmaPointsLayout ly m (perturb B)
+    let res := utLayoutComponent ly ly (utWeights ly.dof alpha beta kappa) m X X qmean
+    (∀ r : Fin ly.dim, r.val < ly.lin → res.1 r = m r) ∧
+    (∀ r : Fin ly.dim, ly.lin ≤ r.val → res.1 r = wrapAngle (m r)) ∧
+    res.2.1 = P := by
+  intro X res
+  refine ⟨fun r hr => ?_, fun r hr => ?_, ?_⟩
+  · exact utLayoutMean_lin ly hq hz alpha beta kappa hc m B qmean r hr
+  · exact utLayoutMean_circ ly hq hz alpha beta kappa hc hn m B qmean r hr
+      (hR ⟨r.val, euler_row_lt_dof ly hq hz r⟩ hr)
+  · exact utLayoutComponent_euler_cov ly hq hz alpha beta kappa hc hn m B P qmean hB hsmall hR
+
+/-- Non-vacuity of `ut_euler_reproduces`: one linear row and one angle, `α = 1`, `κ = 0` (`c = 2`),
+    `B = 1`, `P = 1/2`. -/
+example : ∃ (B P : Mat ℝ (Layout.dof ⟨1, 1, false, 0⟩) (Layout.dof ⟨1, 1, false, 0⟩)),
+    toM B * (toM B)ᵀ = (utWeights (Layout.dof ⟨1, 1, false, 0⟩) (1 : ℝ) 2 0).c • toM P ∧
+    (∀ (r' l : Fin (Layout.dof ⟨1, 1, false, 0⟩)), 1 ≤ r'.val → -π < B r' l ∧ B r' l < π) ∧
+    (∀ r' : Fin (Layout.dof ⟨1, 1, false, 0⟩), 1 ≤ r'.val →
+      0 < utLambda (Layout.dof ⟨1, 1, false, 0⟩) (1 : ℝ) 0 / (((Layout.dof ⟨1, 1, false, 0⟩ : ℕ) : ℝ) + utLambda (Layout.dof ⟨1, 1, false, 0⟩) (1 : ℝ) 0)
+          + 2 * (1 / (2 * (((Layout.dof ⟨1, 1, false, 0⟩ : ℕ) : ℝ) + utLambda (Layout.dof ⟨1, 1, false, 0⟩) (1 : ℝ) 0))) * ∑ l, Real.cos (B r' l)) := by
+  have hd : Layout.dof ⟨1, 1, false, 0⟩ = 2 := rfl
+  refine ⟨Mat.of (fun i j => if i = j then 1 else 0), Mat.of (fun i j => if i = j then 1 / 2 else 0), ?_, ?_, ?_⟩
+  · ext i j
+    simp only [Matrix.mul_apply, Matrix.transpose_apply, toM_apply, Mat.of_apply, Matrix.smul_apply, smul_eq_mul,
+      utWeights, utLambda]
+    rw [Finset.sum_eq_single i]
+    · by_cases h : i = j
+      · simp [h]; norm_num [hd]
+      · simp [h, Ne.symm h]
+    · intro b _ hb; simp [Ne.symm hb]
+    · simp
+  · intro r' l _
+    simp only [Mat.of_apply]
+    have := Real.two_le_pi
+    split <;> constructor <;> linarith
+  · intro r' _
+    have hcos : ∀ l : Fin (Layout.dof ⟨1, 1, false, 0⟩), 0 ≤ Real.cos ((Mat.of (fun i j => if i = j then (1:ℝ) else 0) : Mat ℝ _ _) r' l) := by
+      intro l
+      simp only [Mat.of_apply]
+      split
+      · exact Real.cos_one_pos.le
+      · simp
+    have hpos : 0 < ∑ l, Real.cos ((Mat.of (fun i j => if i = j then (1:ℝ) else 0) : Mat ℝ (Layout.dof ⟨1, 1, false, 0⟩) (Layout.dof ⟨1, 1, false, 0⟩)) r' l) := by
+      apply Finset.sum_pos'
+      · intro l _; exact hcos l
+      · exact ⟨r', Finset.mem_univ _, by simp [Real.cos_one_pos]⟩
+    have hl : utLambda (Layout.dof ⟨1, 1, false, 0⟩) (1 : ℝ) 0 = 0 := by simp [utLambda]
+    rw [hl]
+    simp only [zero_div, add_zero, zero_add]
+    have : (0 : ℝ) < ((Layout.dof ⟨1, 1, false, 0⟩ : ℕ) : ℝ) := by rw [hd]; norm_num
+    positivity
 
 /-- Non-vacuity of the circular hypotheses: `n = 1`, `α = 1`, `κ = 0` (`wm₀ = 0`, `w = 1/2`),
     offset `δ = 1`: the resultant `cos 1` is positive. -/
